@@ -66,13 +66,17 @@ func (d *dialer) SetOption(n string, v interface{}) error {
 	switch n {
 	case mangos.OptionMaxRecvSize:
 		if b, ok := v.(int); ok {
+			d.lock.Lock()
 			d.maxRecvSize = b
+			d.lock.Unlock()
 			return nil
 		}
 		return mangos.ErrBadValue
 	case mangos.OptionTLSConfig:
 		if b, ok := v.(*tls.Config); ok {
+			d.lock.Lock()
 			d.config = b
+			d.lock.Unlock()
 			return nil
 		}
 		return mangos.ErrBadValue
